@@ -37,18 +37,19 @@ Print Assumptions C20_argument_kinds.
    (fails only for an Any argument tested with exclude_any=False, which is
    narrowed to the tested type; that case is decided by the correspondence). *)
 Theorem C20_eval_unionfree_eq_spec :
-  forall (acc : typ -> member -> bool -> bool) (narrow : typ -> member -> list member) (posof : var -> posn),
+  forall (acc : typ -> member -> bool -> bool) (narrow : typ -> member -> list member) (posof : var -> posn)
+         (isany : member -> bool),
   (forall T m ex, acc T m ex = true -> narrow T m = [m]) ->
   forall (sigma : var -> member) rho body dflt,
   (forall v, get rho v = [sigma v]) ->
-  evaluate acc narrow posof rho body dflt = sem_evaluate acc posof sigma body dflt.
+  evaluate acc narrow posof isany rho body dflt = sem_evaluate acc posof sigma body dflt.
 Proof. exact evaluate_single. Qed.
 Print Assumptions C20_eval_unionfree_eq_spec.
 
 (* One is_of_type test on a union argument (docs "Interaction with unions"):
    the positive branch exists iff some member matches, the negative branch iff
    some member does not; the negative branch sees exactly the non-matching
-   members, the positive branch the narrowed members. *)
+   members, the positive branch the (narrowed) matching members. *)
 Theorem C20_is_of_type_splits_union :
   forall (acc : typ -> member -> bool -> bool) (narrow : typ -> member -> list member) rho v T ex,
   let ms := get rho v in
@@ -57,60 +58,42 @@ Theorem C20_is_of_type_splits_union :
   (snd r = None <-> forall m, In m ms -> acc T m ex = true) /\
   (forall vm, snd r = Some vm -> (exists m, In m ms /\ acc T m ex = true) ->
      get vm v = filter (fun m => negb (acc T m ex)) ms) /\
-  (forall vm, fst r = Some vm -> get vm v = nodupn (flat_map (narrow T) ms)).
+  (forall vm, fst r = Some vm -> get vm v = nodupn (flat_map (narrow T) (filter (fun m => acc T m ex) ms))).
 Proof. exact is_of_type_splits. Qed.
 Print Assumptions C20_is_of_type_splits_union.
 
-(* The full distribution statement ("for a union argument the result is the
-   union of the results for each member evaluated separately", for every body)
-   is [union_distributes_full_statement].  The faithful model refutes it:
-   statements after an `if` in which only some members return are evaluated
-   with the un-narrowed union (known finding C20-fallthrough-not-narrowed). *)
-Theorem C20_union_distributes_refuted_fallthrough : ~ union_distributes_full_statement.
-Proof. exact union_distributes_refuted_fallthrough. Qed.
-Print Assumptions C20_union_distributes_refuted_fallthrough.
+(* Union distribution for WHOLE bodies, with no restriction on the body
+   ("for a union argument the result is the union of the results for each member
+   evaluated separately"): one union argument x with members ms, the other
+   arguments present and union-free, no Any member in the union (isany false on ms),
+   matching members unchanged by narrowing.  Covers the and/or
+   partial-match bookkeeping (narrowed / remaining varmaps, key intersection in
+   unite_varmaps, the repaired early exits) and the fall-through varmaps of the
+   repaired visit_block / visit_If (statements after an `if` in which only some
+   members returned see only the members that fell through). *)
+Theorem C20_union_distributes : union_distributes_full_statement.
+Proof. exact union_distributes. Qed.
+Print Assumptions C20_union_distributes.
 
-Example C20_fallthrough_witness :
-  evaluate acc_eq narrow_eq pos_int [(0, [0; 1])] fallthrough_body 4 = ([1; 3; 2], []) /\
-  evaluate acc_eq narrow_eq pos_int [(0, [0])] fallthrough_body 4 = ([1], []) /\
-  evaluate acc_eq narrow_eq pos_int [(0, [1])] fallthrough_body 4 = ([2], []).
+(* the former counterexample (known finding C20-fallthrough-not-narrowed, now
+   repaired): the union call is the union of the member calls *)
+Example C20_fallthrough_repaired :
+  evaluate acc_eq narrow_eq pos_int no_any [(0, [0; 1])] fallthrough_body 4 = ([1; 2], []) /\
+  evaluate acc_eq narrow_eq pos_int no_any [(0, [0])] fallthrough_body 4 = ([1], []) /\
+  evaluate acc_eq narrow_eq pos_int no_any [(0, [1])] fallthrough_body 4 = ([2], []).
 Proof. exact fallthrough_values. Qed.
-Print Assumptions C20_fallthrough_witness.
+Print Assumptions C20_fallthrough_repaired.
 
 (* Non-trivial instance where distribution holds on the model, through the
    repaired `or` (members 0 and 1 reach the body, member 2 the else branch;
    types and show_error sites are the unions of the member results). *)
 Example C20_union_or_distributes_example :
-  evaluate acc_eq narrow_eq pos_int [(0, [0; 1; 2])] or_body 4 = ([1; 2; 3], [7]) /\
-  evaluate acc_eq narrow_eq pos_int [(0, [0])] or_body 4 = ([1], []) /\
-  evaluate acc_eq narrow_eq pos_int [(0, [1])] or_body 4 = ([2], [7]) /\
-  evaluate acc_eq narrow_eq pos_int [(0, [2])] or_body 4 = ([3], []).
+  evaluate acc_eq narrow_eq pos_int no_any [(0, [0; 1; 2])] or_body 4 = ([1; 2; 3], [7]) /\
+  evaluate acc_eq narrow_eq pos_int no_any [(0, [0])] or_body 4 = ([1], []) /\
+  evaluate acc_eq narrow_eq pos_int no_any [(0, [1])] or_body 4 = ([2], [7]) /\
+  evaluate acc_eq narrow_eq pos_int no_any [(0, [2])] or_body 4 = ([3], []).
 Proof. exact or_example. Qed.
 Print Assumptions C20_union_or_distributes_example.
-
-(* Union distribution for WHOLE bodies, including the and/or partial-match
-   bookkeeping (narrowed / remaining varmaps, key intersection in
-   unite_varmaps, the repaired early exits): one union argument x with members
-   ms, the other arguments union-free, exact narrowing tables, and the guard
-   [tail_block] that excludes the fall-through finding (a statement containing
-   a return is the last statement of its block).  Then the returned types and
-   the show_error sites of the call are exactly the unions of those of the
-   member calls.  (The statement without [tail_block] is
-   union_distributes_full_statement, refuted above.) *)
-Theorem C20_union_distributes_partial :
-  forall (acc : typ -> member -> bool -> bool) (narrow : typ -> member -> list member) (posof : var -> posn),
-  (forall T m ex, acc T m ex = true -> narrow T m = [m]) ->
-  (forall T m ex, acc T m ex = false -> narrow T m = []) ->
-  forall (x : var) (sigma : var -> member) rho ms body dflt,
-  ms <> [] ->
-  (forall v, v <> x -> get rho v = [sigma v]) ->
-  tail_block body = true ->
-  sameset (fst (evaluate acc narrow posof ((x, ms) :: rho) body dflt))
-          (flat_map (fun m => fst (evaluate acc narrow posof ((x, [m]) :: rho) body dflt)) ms) /\
-  sameset (snd (evaluate acc narrow posof ((x, ms) :: rho) body dflt))
-          (flat_map (fun m => snd (evaluate acc narrow posof ((x, [m]) :: rho) body dflt)) ms).
-Proof. exact union_distributes. Qed.
-Print Assumptions C20_union_distributes_partial.
 
 (* every condition, for a union argument: the left / right variable maps denote
    exactly the members for which the condition is true / false under the
@@ -119,7 +102,6 @@ Print Assumptions C20_union_distributes_partial.
 Theorem C20_condition_splits_union :
   forall (acc : typ -> member -> bool -> bool) (narrow : typ -> member -> list member) (posof : var -> posn),
   (forall T m ex, acc T m ex = true -> narrow T m = [m]) ->
-  (forall T m ex, acc T m ex = false -> narrow T m = []) ->
   forall (x : var) (sigma : var -> member) c rho,
   others x sigma rho -> nonempty (get rho x) ->
   cret_sets x sigma rho (eval_cond acc narrow posof rho c)
@@ -128,12 +110,10 @@ Theorem C20_condition_splits_union :
 Proof. exact condition_splits_union. Qed.
 Print Assumptions C20_condition_splits_union.
 
-Example C20_tail_guard_inhabited :
-  tail_block or_body = true /\ tail_block fallthrough_body = false /\
-  (forall T m ex, acc_eq T m ex = true -> narrow_eq T m = [m]) /\
-  (forall T m ex, acc_eq T m ex = false -> narrow_eq T m = []).
-Proof. exact tail_guard_inhabited. Qed.
-Print Assumptions C20_tail_guard_inhabited.
+Example C20_tables_hypotheses_inhabited :
+  forall T m ex, acc_eq T m ex = true -> narrow_eq T m = [m].
+Proof. exact tables_exact. Qed.
+Print Assumptions C20_tables_hypotheses_inhabited.
 
 (* Tie to the source, re-checked on every run.  [gen_kind_match] is regenerated
    from ConditionEvaluator.visit_Call by harness/translate/typeeval.py and is the
@@ -144,3 +124,26 @@ Print Assumptions C20_tail_guard_inhabited.
 Theorem C20_kind_predicates_are_translated : forall f p, gen_kind_match f p = kind_match f p.
 Proof. exact gen_kind_match_is_model. Qed.
 Print Assumptions C20_kind_predicates_are_translated.
+
+(* The hypothesis narrow_id of C20_union_distributes is necessary: with an Any-like
+   member that a permissive match converts to the tested type, the faithful model
+   gives a strict superset (known finding C20-any-conversion-superset). *)
+Theorem C20_union_distributes_refuted_without_narrow_id : ~ union_distributes_without_narrow_id.
+Proof. exact union_distributes_refuted_without_narrow_id. Qed.
+Print Assumptions C20_union_distributes_refuted_without_narrow_id.
+
+(* "the other arguments are present and union-free" is satisfiable by a finite
+   variable map (an unbound variable holds the single member 0 in the model) *)
+Example C20_unionfree_env_inhabited :
+  forall v, v <> 0 -> exists m, get [(1, [7]); (2, [5])] v = [m].
+Proof. exact others_unionfree_inhabited. Qed.
+Print Assumptions C20_unionfree_env_inhabited.
+
+(* The hypothesis "no Any member" is necessary: for a variable whose value has an
+   Any member the repaired visit_block skips the fall-through narrowing (a
+   permissive match may have converted that member, so membership cannot be
+   tracked), and the un-narrowed fall-through gives a strict superset there
+   (known finding C20-any-union-fallthrough). *)
+Theorem C20_union_distributes_refuted_without_noany : ~ union_distributes_without_noany.
+Proof. exact union_distributes_refuted_without_noany. Qed.
+Print Assumptions C20_union_distributes_refuted_without_noany.
